@@ -26,6 +26,7 @@ struct State
   void (*action)(void*) = nullptr;
   void* arg = nullptr;
   volatile bool fired = false;
+  void (*foreign_fault)(int) = nullptr; // called for faults outside the trapped region (then the default action)
   Access log[8192];
 };
 inline State st;
@@ -35,8 +36,9 @@ inline void on_segv(int sig, siginfo_t* si, void* ucv)
   ucontext_t* uc = static_cast<ucontext_t*>(ucv);
   uintptr_t a = reinterpret_cast<uintptr_t>(si->si_addr);
   if (!st.armed || a < st.base || a >= st.base + st.size) {
-    // not ours: fall back to the default action (the fault repeats and kills the process)
+    // not ours: record the context, then fall back to the default action (the fault repeats and kills the process)
     signal(sig, SIG_DFL);
+    if (st.foreign_fault) st.foreign_fault(sig);
     return;
   }
   mprotect(reinterpret_cast<void*>(st.base), st.size, PROT_READ | PROT_WRITE);
